@@ -773,8 +773,12 @@ func hcReplayAll(t *testing.T, mode string) {
 		t.Fatal(err)
 	}
 	dbEvery := 1
-	if v := len(behs); v > 1500 {
-		dbEvery = v / 1500 // stage 2 is expensive: a deterministic subset of the behaviours
+	target := 800 // stage 2 is expensive: a deterministic subset of the behaviours
+	if !verifh.Quick() {
+		target = 8000
+	}
+	if v := len(behs); v > target {
+		dbEvery = v / target
 	}
 	var mu sync.Mutex
 	total := map[string]int{}
